@@ -26,6 +26,7 @@ import Driver.Raft
 import Driver.Scan
 import Driver.Sync
 import Driver.Stream
+import Driver.WaitTable
 
 partial def loop {σ : Type} (step : σ → String → σ × String) (hin hout : IO.FS.Stream) (s : σ) : IO Unit := do
   let line ← hin.getLine
@@ -65,4 +66,5 @@ def main (args : List String) : IO UInt32 := do
   | ["datacore"] => loop Drv.DataCore.step hin hout {}; hout.flush; return 0
   | ["syncsend"] => loop Drv.SyncSend.step hin hout (); hout.flush; return 0
   | ["codec"] => loop Drv.Codec.step hin hout (); hout.flush; return 0
+  | ["waittable"] => loop Drv.WaitTable.step hin hout {}; hout.flush; return 0
   | _ => IO.eprintln "usage: zvdriver <proto>"; return 2
